@@ -277,7 +277,7 @@ var scenarios = [][]string{
 		"cas cas 1 100",
 		"cas evict",
 		"cas cas 0 50",
-		"cas stress 30 4",
+		"cas stress 6000 2",
 	},
 }
 
@@ -454,7 +454,7 @@ func genCASCase(r *vlib.R, emit func(string)) int {
 		case k < 19:
 			emit(fmt.Sprintf("cas cas %d %d", r.Intn(3), vlib.Pick(r, []int64{7, 100, 3600})))
 		default:
-			emit(fmt.Sprintf("cas stress %d %d", 10+r.Intn(20), 2+r.Intn(5)))
+			emit(fmt.Sprintf("cas stress %d %d", 400+r.Intn(400), 1+r.Intn(3)))
 		}
 	}
 	return n + 1
